@@ -18,7 +18,8 @@ CONSTANTS W,         \* writers (peers) 1..W, each opens at most one writer
           DECLS,     \* possible declared lengths
           MAXN,      \* largest number of units in one write() call
           BARE,      \* TRUE: writers may also be opened through the bare API during the save window
-          CLOSEDEL   \* TRUE: close() / delete() may be called at any time
+          CLOSEDEL,  \* TRUE: close() / delete() may be called at any time
+          LATE       \* TRUE: the blob may be created without a length, announced later through set_length()
 Writers == 1..W
 VARIABLES decl,     \* declared length (0 = unknown, after delete)
           open,     \* [w -> BOOLEAN]  writer.buffer is not None
@@ -38,7 +39,7 @@ vars == <<decl, open, fut, inmap, sofar, allgood, ready, exec, writing, verified
 Done(w) == fut[w] \in {"result", "exc_len", "exc_hash", "cancelled"}
 Callbacks(w) == << <<"close_handle", w>>, <<"remove_writer", w>>, <<"finished_cb", w>> >>
 
-Init == /\ decl \in DECLS
+Init == /\ decl \in DECLS \cup (IF LATE THEN {0} ELSE {})       \* 0: the length is not known yet (blob requested by hash)
         /\ open = [w \in Writers |-> FALSE] /\ fut = [w \in Writers |-> "none"]
         /\ inmap = [w \in Writers |-> FALSE] /\ sofar = [w \in Writers |-> 0]
         /\ allgood = [w \in Writers |-> TRUE] /\ delivered = [w \in Writers |-> FALSE]
@@ -53,6 +54,10 @@ OpenWriter(w) ==
   /\ UNCHANGED <<decl, sofar, allgood, ready, exec, writing, verified, file, completedCalls, delivered, ndel>>
 GetWriterGuarded(w) == fut[w] = "none" /\ file = "none" /\ ~writing /\ ~verified /\ OpenWriter(w)
 GetWriterBare(w) == BARE /\ fut[w] = "none" /\ file = "none" /\ (writing \/ verified) /\ OpenWriter(w)
+
+\* AbstractBlob.set_length: takes effect only while the length is unknown (and before delete(); ndel = 0)
+SetLength(d) == /\ LATE /\ decl = 0 /\ ndel = 0 /\ decl' = d
+                /\ UNCHANGED <<open, fut, inmap, sofar, allgood, ready, exec, writing, verified, file, completedCalls, delivered, ndel>>
 
 \* HashBlobWriter.write(n units of kind k); a writer only writes while its future is pending (the transport
 \* delivers a connection's next chunk after the callbacks of the previous one have run)
@@ -144,7 +149,7 @@ Delete ==
 
 Next == \/ \E w \in Writers : GetWriterGuarded(w) \/ GetWriterBare(w)
         \/ \E w \in Writers, n \in 1..MAXN, k \in {"good", "bad"} : Write(w, n, k)
-        \/ RunHead \/ ExecDone \/ Close \/ Delete
+        \/ RunHead \/ ExecDone \/ Close \/ Delete \/ \E d \in DECLS : SetLength(d)
 Spec == Init /\ [][Next]_vars /\ WF_vars(RunHead) /\ WF_vars(ExecDone)
 
 \* ------------------------------------------------------------------ the property
